@@ -46,6 +46,14 @@ reg('C17',
     'list model written from the property text; forced host CPU devices stand in for accelerators; uniform queue never sampled empty',
     'DESIGN.md section 4 C17')
 
+reg('C18',
+    'property-based testing (Hypothesis): differential against NumPy weighted population statistics after every update; metamorphic over partitions, batch-axis layouts and integer weights',
+    'No counter-example among generated nested observation structures x partitions of 2-200 samples into 1-8 batches (1-2 batch axes) x integer weights x scales '
+    '1e-3..1e3 with constant columns: count, mean (1e-12), variance (1e-10), clipped std for biting and default bounds, normalize/denormalize round trip, '
+    'integer leaves untouched, max_abs_value clipping. Sampling, not proof.',
+    'float64; first batch has positive total weight; NumPy reference',
+    'DESIGN.md section 4 C18')
+
 PENDING = {}
 
 
